@@ -60,6 +60,18 @@ CLAIMED = {
         technique="Rocq proof (stream/segment commutation lemma + induction over segments and frames) + regenerated constants + in-Coq differential correspondence against the threaded receiver",
         design="5/C04",
     ),
+    "C18": dict(
+        text="Theorems (Props/C18.v): for any machine, handlers and state a disallowed or unknown request raises and changes nothing "
+             "(C18_disallowed_raises_unchanged); for any flat machine and any programs of nested requests from enter/called handlers, to any depth, a normal "
+             "return leaves exactly the current state active (C18_flat_nested_consistent, induction over the nesting); the three shipped machines, regenerated "
+             "from the source, conform to the reference statechart semantics in every state for every request - verdict, destination, active set, events once "
+             "each (C18_shipped_machines_conform, exhaustive over the finite tables). Where the property does NOT hold the development proves it: "
+             "C18_nested_hierarchical_refuted and C18_concurrent_refuted (known findings, replayed on the real engine). General hierarchical machines without nested "
+             "requests are covered by the differential correspondence against the reference semantics on random forests (no general theorem yet).",
+        note=NOTE_COMMON + " Handler programs are modelled as lists of requested transition names; what else a callback does is outside the engine. Concurrency is modelled at the granularity check / leave / set / enter / called.",
+        technique="Rocq proof (induction over nested requests; exhaustive finite-table conformance by vm_compute + forallb lifting; refutation witnesses) + translator-regenerated machine tables + in-Coq differential correspondence on random machines",
+        design="5/C18",
+    ),
 }
 
 NOT_YET = {}
